@@ -145,6 +145,10 @@ func runColumnTable(c *Ctx, onlyTypes map[string]bool) {
 	p := c.P
 	fns := staticParseFns(c)
 	b := newBinder(c, resultCarriers...)
+	fnSet := map[*ssa.Function]bool{}
+	for _, f := range fns {
+		fnSet[f] = true
+	}
 	byField := map[string][]fieldStore{}
 	for _, o := range staticOracle {
 		if _, done := byField[o.typ]; !done {
@@ -167,6 +171,10 @@ func runColumnTable(c *Ctx, onlyTypes map[string]bool) {
 		}
 		for _, fs := range stores {
 			expr := b.bind(fs.store.Val)
+			if strings.Contains(expr, "param:") {
+				// the store sits in a helper: describe the value in the terms of the parse function that calls it
+				expr = b.bindInContext(fs.fn, fs.store.Val, fnSet, 0)
+			}
 			fname := shortName(fs.fn)
 			pos := p.ipos(fs.store)
 			// the inheritance pass legitimately stores the parent's value
@@ -408,51 +416,90 @@ func runTimeFormulas(c *Ctx) {
 		}
 		c.Check(okDigits, "TIME", fname, "decimal accumulation", p.pos(f.Pos()), "piece = 10*piece + digit", "pieces are not accumulated as decimal numbers")
 	}
-	if f := c.anchor("gtfs:parseTime"); f != nil {
-		fname := shortName(f)
-		ok := false
-		for _, b := range f.Blocks {
-			for _, in := range b.Instrs {
-				if call, isCall := in.(*ssa.Call); isCall && calleeName(call) == "time.ParseInLocation" {
-					layout, _ := constString(call.Call.Args[0])
-					if layout == "20060102" && call.Call.Args[1] == ssa.Value(f.Params[0]) && call.Call.Args[2] == ssa.Value(f.Params[1]) {
-						ok = true
+	// dates: every time.ParseInLocation of the static parser uses layout 20060102, on a cell of the file, in a
+	// location that is ultimately the first agency's zone (time.LoadLocation of Agencies[0].Timezone) or UTC --
+	// however the text and the location travel there (parameters, a parameter struct, a captured variable)
+	b := newBinder(c)
+	nParse := 0
+	for _, fn := range staticParseFns(c) {
+		for _, blk := range fn.Blocks {
+			for _, in := range blk.Instrs {
+				call, isCall := in.(*ssa.Call)
+				if !isCall || calleeName(call) != "time.ParseInLocation" {
+					continue
+				}
+				nParse++
+				layout, _ := constString(call.Call.Args[0])
+				c.Check(layout == "20060102", "TIME", shortName(fn), "YYYYMMDD layout", p.ipos(call), "time.ParseInLocation(\"20060102\", ...)", "dates are parsed with layout "+layout+", not 20060102")
+				var zones []string
+				okZone := true
+				for _, lf := range c.valueLeaves(call.Call.Args[2]) {
+					e := b.bind(lf)
+					zones = append(zones, clip(e, 80))
+					isUTC := e == "global:UTC"
+					isAgency := strings.Contains(e, "time.LoadLocation(") && strings.Contains(e, ".Agencies[const:0].Timezone")
+					if !isUTC && !isAgency {
+						okZone = false
 					}
 				}
+				sort.Strings(zones)
+				zones = dedup(zones)
+				hasAgency := false
+				for _, z := range zones {
+					if strings.Contains(z, "time.LoadLocation(") {
+						hasAgency = true
+					}
+				}
+				c.Check(okZone && hasAgency, "TIME", shortName(fn), "dates in the first agency's zone", p.ipos(call), "the location is time.LoadLocation(Agencies[0].Timezone), or UTC", "calendar dates are not interpreted in the first agency's timezone with UTC fallback: the location can be "+strings.Join(zones, " | "))
 			}
 		}
-		c.Check(ok, "TIME", fname, "YYYYMMDD in the given location", p.pos(f.Pos()), "time.ParseInLocation(\"20060102\", s, timezone): midnight of that civil day in the zone", "dates are not parsed with layout 20060102 in the location argument")
 	}
-	// zone provenance: the location passed to parseCalendar / parseCalendarDates is the captured `timezone`, assigned
-	// time.UTC initially and time.LoadLocation(result.Agencies[0].Timezone) (UTC on error) in the agency phase
-	ps := c.anchor("gtfs:ParseStatic")
-	if ps == nil {
-		return
-	}
-	b := newBinder(c)
-	for _, spec := range []string{"gtfs:parseCalendar", "gtfs:parseCalendarDates"} {
-		f := c.anchor(spec)
-		if f == nil {
-			continue
-		}
-		for _, e := range p.Callers(f) {
-			args := e.Site.Common().Args
-			expr := b.bind(args[len(args)-1])
-			// expected: the cell holds {global:UTC, LoadLocation(...Agencies[0].Timezone)#0}
-			ok := strings.Contains(expr, "global:UTC") && strings.Contains(expr, "time.LoadLocation(") && strings.Contains(expr, ".Agencies[const:0].Timezone")
-			extra := strings.Contains(expr, "time.Local") || strings.Contains(expr, "global:Local")
-			c.Check(ok && !extra, "TIME", shortName(e.Caller), "zone handed to "+f.Name(), p.ipos(e.Site), "first agency's zone (time.LoadLocation of Agencies[0].Timezone) or UTC", "calendar dates are not interpreted in the first agency's timezone with UTC fallback: "+clip(expr, 240))
-		}
+	if nParse == 0 {
+		c.Violated("TIME", "gtfs", "date parsing", "-", "the static parser no longer parses dates with time.ParseInLocation")
 	}
 }
 
-// polyOf normalises an integer expression into a linear form over named atoms: map atom -> coefficient, "" -> constant.
+// polyEnv: while the body of an arithmetic helper is read, its parameters stand for the polynomials of the arguments.
+var polyEnv []map[*ssa.Parameter]map[string]int64
+
 func polyOf(v ssa.Value, d int) (map[string]int64, string) {
 	if d > 20 {
 		return nil, "expression too deep"
 	}
 	if k, ok := constInt(v); ok {
 		return map[string]int64{"": k}, ""
+	}
+	if prm, ok := v.(*ssa.Parameter); ok {
+		for i := len(polyEnv) - 1; i >= 0; i-- {
+			if pm, has := polyEnv[i][prm]; has {
+				return pm, ""
+			}
+		}
+	}
+	if call, ok := v.(*ssa.Call); ok && !call.Call.IsInvoke() && len(polyEnv) < 3 {
+		// a module helper that only does the arithmetic (single return of an expression over its parameters)
+		if cal := call.Call.StaticCallee(); cal != nil && len(cal.Blocks) == 1 && strings.HasPrefix(fnPkgPath(cal), modPath) && len(cal.Params) == len(call.Call.Args) {
+			if ret, isRet := cal.Blocks[0].Instrs[len(cal.Blocks[0].Instrs)-1].(*ssa.Return); isRet && len(ret.Results) == 1 {
+				env := map[*ssa.Parameter]map[string]int64{}
+				okArgs := true
+				for i, a := range call.Call.Args {
+					pa, e := polyOf(a, d+1)
+					if e != "" {
+						okArgs = false
+						break
+					}
+					env[cal.Params[i]] = pa
+				}
+				if okArgs {
+					polyEnv = append(polyEnv, env)
+					res, e := polyOf(ret.Results[0], d+1)
+					polyEnv = polyEnv[:len(polyEnv)-1]
+					if e == "" {
+						return res, ""
+					}
+				}
+			}
+		}
 	}
 	switch x := v.(type) {
 	case *ssa.Convert:
@@ -619,7 +666,11 @@ func runFileTable(c *Ctx) {
 				ast.Inspect(fl, func(n ast.Node) bool {
 					switch x := n.(type) {
 					case *ast.CallExpr:
-						if id, ok := x.Fun.(*ast.Ident); ok {
+						id, ok := x.Fun.(*ast.Ident)
+						if sel, isSel := x.Fun.(*ast.SelectorExpr); isSel {
+							id, ok = sel.Sel, true // a method call (opts.parseStops(file))
+						}
+						if ok {
 							if fo, isFn := pk.TypesInfo.Uses[id].(*types.Func); isFn && fo.Pkg() != nil && fo.Pkg().Path() == modPath {
 								row.calls = append(row.calls, id.Name)
 								if sf := p.SSA.FuncValue(fo); sf != nil {
